@@ -141,6 +141,9 @@ def _hand_specs():
         'SURFACE EQUIPMENT SIMULATION RESULTS||Initial pumping power/net installed power':
             lambda s, e: [float(np.asarray(s['wellbores']['PumpingPower'].value, dtype=float)[0]) /
                           float(np.asarray(s['surfaceplant']['NetElectricityProduced'].value, dtype=float)[0]) * 100.0],
+        # SUTRA writer only (its own code): average of the absolute production well flow rates
+        'SUMMARY OF RESULTS||Lifetime Average Well Flow Rate': lambda s, e: [float(np.average(np.abs(np.asarray(s['wellbores']['ProductionWellFlowRates'].value, dtype=float))))],
+        'ENGINEERING PARAMETERS||Lifetime Average Well Flow Rate': lambda s, e: [float(np.average(np.abs(np.asarray(s['wellbores']['ProductionWellFlowRates'].value, dtype=float))))],
         'SUMMARY OF RESULTS||Total Avoided Carbon Emissions': lambda s, e: [_v(s, 'economics', 'CarbonThatWouldHaveBeenProducedTotal') *
                                                                             (0.45359237e-6 if e['unit'] == 'kilotonne' else 1.0)] if e['unit'] in ('kilotonne', 'pound') else [],
     }
